@@ -25,7 +25,7 @@ OUTSIDE = ["urlencoded keys/values longer than 2 (3) code points or above U+07FF
 SHAPES = {"field": ["field"], "file": ["file"], "field+file": ["field", "file"], "file+field-same-name": ["file", "field"], "two-fields": ["field", "field"]}
 
 
-def body_roundtrip(I, X, shape="field", n=2, nn=1, boundary="b", chunk=0, name_skel="{}"):
+def body_roundtrip(I, X, shape="field", n=2, nn=1, boundary="b", chunk=0, name_skel="{}", cut=0):
     from werkzeug.datastructures import Headers
     from werkzeug.sansio.multipart import Data, Epilogue, Field, File, MultipartEncoder, Preamble
 
@@ -71,7 +71,10 @@ def body_roundtrip(I, X, shape="field", n=2, nn=1, boundary="b", chunk=0, name_s
         wire = pconcat(wire, I.call(enc.send_event, (Data(data=payload, more_data=False),)))
         sent.append((kind, name, filename, payload))
     wire = pconcat(wire, I.call(enc.send_event, (Epilogue(data=b""),)))
-    if chunk:
+    if cut:
+        # one split of the encoder's output at a given offset
+        pieces = [wire[:cut], wire[cut:]]
+    elif chunk:
         total = plen(wire)
         pieces = [wire[i:i + chunk] for i in range(0, total, chunk)]
     else:
@@ -193,6 +196,12 @@ def obligations(tier, seed):
         for skel in ("%{}", "a%{}b", "{}%41"):
             out.append({"name": f"roundtrip[{shape},names={skel!r}]", "body": "body_roundtrip",
                         "params": {"shape": shape, "n": 1, "nn": 2, "boundary": "b", "name_skel": skel},
+                        "opts": {"budget_s": 900, "ctx": {"max_cp": 0x7FF}}})
+    # empty values followed by another part, the encoder's output split in two at every offset
+    for shape in ("two-fields", "file+field-same-name"):
+        for cut in range(1, 150, 2 if quick else 1):
+            out.append({"name": f"roundtrip-split[{shape},empty,cut={cut}]", "body": "body_roundtrip",
+                        "params": {"shape": shape, "n": 0, "nn": 1, "boundary": "--bnd-0123", "cut": cut},
                         "opts": {"budget_s": 900, "ctx": {"max_cp": 0x7FF}}})
     # a payload long enough to hold '--b' in the middle of a line
     out.append({"name": "roundtrip[file,boundary=b,payload=4,names=1]", "body": "body_roundtrip",
